@@ -42,12 +42,22 @@ def components (rel : List Char) : List Comp :=
     | ['.'] :: t => .curDir :: bodyComps t
     | parts => bodyComps parts
 
-/-- `safe_join(root, rel)`: refuse absolute paths and any `..` / root component; otherwise
+/-- the path-traversal guard of `safe_join(root, rel)`: refuse absolute paths and any `..` / root component; otherwise
 `root.join(rel)` = `root ++ "/" ++ rel` as a string (root given without trailing slash). -/
-def safeJoin (root rel : List Char) : Option (List Char) :=
+def safeJoinPath (root rel : List Char) : Option (List Char) :=
   if rel.head? = some '/' then none
   else if (components rel).any (fun c => c = .parentDir ∨ c = .rootDir) then none
   else some (root ++ '/' :: rel)
+
+/-- the first `Normal` component of the request path is the hub's own control directory `.copia` -/
+def reservedFirst (rel : List Char) : Bool :=
+  match (components rel).find? (fun c => match c with | .normal _ => true | _ => false) with
+  | some (.normal s) => s = ".copia".toList
+  | _ => false
+
+/-- `safe_join` as repaired (D12/D17): additionally refuses anything inside the control directory -/
+def safeJoin (root rel : List Char) : Option (List Char) :=
+  if reservedFirst rel then none else safeJoinPath root rel
 
 /-- The kernel's lexical walk of a path string: split on `/`, skip `""` and `"."`, `".."` pops. -/
 def osWalk (stack : List (List Char)) : List (List Char) → List (List Char)
